@@ -40,6 +40,7 @@ func (c17) Assumptions() []string {
 
 func (c17) Gates(tier string, m map[string]int64) []rt.Gate {
 	return []rt.Gate{
+		rt.GateMin("statements whose last literal lost its closing quote", m, "unterminated_last_literal", 500),
 		rt.GateMin("errors held across later failing statements and rendered again", m, "held_errors_rechecked", 1000),
 		rt.GateMin("queries with a tab or line break before the leading blanks", m, "leading_tab_or_newline", 500),
 		rt.GateMin("positional errors from BuildPlan checked", m, "plan_errors", 2000),
@@ -92,6 +93,17 @@ func (k c17) Run(c *rt.Ctx) {
 			}
 		case 1: // long query with a late fault
 			q = c17LongLate(r)
+		case 2: // the last literal lost its closing quote and is the token the error points at
+			q = []string{"select * where key = 'abc", "select key where value ~= \"^x", "remove 'k1', 'k2", "select * where key ^= 'k' & value + 'zz", "select key, value where key > 'a' & value = `v", "delete where value ^= \"it's", "select * where key = 'a' | value ^= 'b c"}[r.Intn(7)]
+			if r.Bool() { // longer than the 70-byte window, the open literal stays last
+				pad := strings.Repeat("z", r.Range(30, 120))
+				if i := strings.Index(q, " where "); i >= 0 {
+					q = q[:i+7] + "key != '" + pad + "' & " + q[i+7:]
+				} else {
+					q = "remove '" + pad + "', " + q[len("remove "):]
+				}
+			}
+			c.Rec.Inc("unterminated_last_literal")
 		default:
 			gs := &gen.Store{Family: fam, Pairs: ps}
 			g := fullGenFor(c, gs, r)
@@ -155,7 +167,34 @@ func c17LongLate(r *rt.Rand) string {
 // otherwise vouch for itself). ok=false when the reference does not settle the
 // tokenisation of q.
 func c17Tokens(q string) (starts map[int]bool, ok bool) {
-	toks, judged, _ := refTokenize(q)
+	toks, judged, why := refTokenize(q)
+	if !judged && why == "unterminated quote" {
+		// the text before the opening quote is tokenised as usual; the unterminated literal is
+		// one last token that starts at its quote
+		open, qc := -1, byte(0)
+		for i := 0; i < len(q); i++ {
+			ch := q[i]
+			if qc == 0 {
+				if ch == '\'' || ch == '"' || ch == '`' {
+					open, qc = i, ch
+				}
+			} else if ch == qc {
+				open, qc = -1, 0
+			}
+		}
+		if open < 0 {
+			return nil, false
+		}
+		head, hj, _ := refTokenize(q[:open])
+		if !hj {
+			return nil, false
+		}
+		starts = map[int]bool{open: true}
+		for _, t := range head {
+			starts[t.pos] = true
+		}
+		return starts, true
+	}
 	if !judged {
 		return nil, false
 	}
